@@ -22,7 +22,7 @@ import numpy as np
 from common import *
 import tr_footprint as TR
 
-IMPORTS = "From CV Require Import Base.Tac Base.Cmp Model.C14_Chain Model.C14_Burn Model.C14_Out Model.C14_Warm Model.C14_Gibbs."
+IMPORTS = "From CV Require Import Base.Tac Base.Cmp Model.C14_Chain Model.C14_Burn Model.C14_Out Model.C14_Warm Model.C14_Gibbs Model.C14_Stream."
 RULE = ("one case = one (sampler configuration, operation sequence, random seed): operation sequences enumerate every split "
         "position and every checkpoint position 0..N of the sampling phase (N<=8 quick / <=40 thorough), with and without warm-up, "
         "in-memory and on-disk checkpoints, plus multi-split/multi-resume sequences; stateless interface: all (N, Nb) in a grid for "
@@ -45,6 +45,10 @@ SIG_STEPSDICT = "HybridGibbs.__init__|num_sampling_steps-dict-shared-with-caller
 
 def coq_ll(ll, ids):
     return clist([czvec([ids(b) for b in l]) for l in ll])
+
+
+def cnl(l):
+    return clist([cnat(int(x)) for x in l])
 
 
 # ------------------------------------------------------------------------------------------------------------------
@@ -84,12 +88,15 @@ class Stream:
     def __init__(self, seed, record=False):
         self.sr = ScriptedRandom(seed)
         self.values = []              # (kind, value) of every draw, when record=True
-        if record:
-            def script(kind, a, k, idx):
-                v = getattr(self.sr.gen, kind)(*a, **k)
+        self.nvar = 0                 # number of variates handed out so far: the POSITION of the stream
+
+        def script(kind, a, k, idx):
+            v = getattr(self.sr.gen, kind)(*a, **k)
+            self.nvar += int(np.size(v))
+            if record:
                 self.values.append((kind, v))
-                return v
-            self.sr.script = script
+            return v
+        self.sr.script = script
 
     def __enter__(self):
         self.sr.__enter__()
@@ -149,7 +156,7 @@ def poison_irrelevant(s, f, warm):
     reads = f["warmup_r"] if warm else f["sample_r"]
     scratch = set(f["step_wfirst"])
     state = set(f["state"])
-    keep = set(a for a in reads if a not in scratch and a not in state) | {"callback", "tune", "_is_initialized", "_target"}
+    keep = set(a for a in reads if a not in scratch and a not in state) | {"callback", "tune", "step", "_is_initialized", "_target"}
     done = []
     for a in list(vars(s)):
         if a not in keep:
@@ -324,7 +331,14 @@ class World:
         dr_, lr_ = Gamma(1, 1e-2, name="d"), Gamma(1, 1e-2, name="l")
         xr_ = RegularizedGaussian(np.zeros(n), lambda d: 1 / d, constraint="nonnegativity", name="x")
         yr_ = Gaussian(A @ xr_, lambda l: 1 / l, name="y")
-        self.joints = {"std": self.joint, "names": JointDistribution(sc_, s_, xn_, yn_)(y=ydata),
+        # an UNOBSERVED variable z whose conditional is a distribution that can be sampled directly (Direct block: its
+        # validate_target draws from the target, so whatever re-validates once per call moves the random stream)
+        dd_, ld_ = Gamma(1, 1e-2, name="d"), Gamma(1, 1e-2, name="l")
+        xd_ = Gaussian(np.zeros(n), lambda d: 1 / d, name="x")
+        yd_ = Gaussian(A @ xd_, lambda l: 1 / l, name="y")
+        zd_ = Gaussian(np.zeros(2), lambda l: 1 / l, name="z")
+        self.joint_dir = JointDistribution(dd_, ld_, xd_, yd_, zd_)(y=ydata)
+        self.joints = {"std": self.joint, "dir": self.joint_dir, "names": JointDistribution(sc_, s_, xn_, yn_)(y=ydata),
                        "lmrf": JointDistribution(dl_, ll_, xl_, yl_)(y=ydata), "reg": JointDistribution(dr_, lr_, xr_, yr_)(y=ydata)}
         # conditionals of a hyper-parameter: Gaussian-Gamma pair (Conjugate) and LMRF-Gamma pair (ConjugateApprox)
         dc = Gamma(1, 1e-2, name="d")
@@ -441,6 +455,10 @@ class World:
               "HybridGibbs/MH+Conjugate+Conjugate,steps={x:4}", "HybridGibbs/RTO+MH+Direct-free,steps={d:1}",
               "HybridGibbs/MH+MH+Conjugate,steps={x:2,d:4,l:1}", "HybridGibbs/RTO+Conjugate,steps={x:0}", "HybridGibbs/names:scale,s",
               "HybridGibbs/UGLA+ConjugateApprox+Conjugate", "HybridGibbs/RegRTO+Conjugate+Conjugate", "HybridGibbs/user-subclasses"]
+    # every block-sampler class the library offers inside HybridGibbs; a Direct block in each (joint `dir`: d, l, x, z)
+    HYBRID_DIR = ["HybridGibbs/dir:PCN+Conjugate+MH+Direct", "HybridGibbs/dir:ULA+Conjugate+CWMH+Direct,steps={x:2}",
+                  "HybridGibbs/dir:MALA+Conjugate+MH+Direct,steps={z:2}", "HybridGibbs/dir:NUTS+Conjugate+MH+Direct",
+                  "HybridGibbs/dir:LinearRTO+Conjugate+CWMH+Direct", "HybridGibbs/dir:MH+Conjugate+MH+Direct,steps={z:0}"]
 
     def make_hybrid(self, name):
         """block samplers: exact ones (LinearRTO, Conjugate) and rejecting ones (MH, CWMH, MALA with large scales);
@@ -471,16 +489,51 @@ class World:
             "HybridGibbs/user-subclasses": ({"x": type("MyNUTS", (E.NUTS,), {})(max_depth=3), "d": type("MyMH", (E.MH,), {})(scale=1.0, initial_point=one(1.0)),
                                             "l": E.Conjugate()}, {"d": 2}),
         })
+        table.update({
+            "HybridGibbs/dir:PCN+Conjugate+MH+Direct": ({"x": E.PCN(scale=0.3, initial_point=x3()), "d": E.Conjugate(), "l": E.MH(scale=0.5, initial_point=one(1.0)),
+                                                         "z": E.Direct()}, None),
+            "HybridGibbs/dir:ULA+Conjugate+CWMH+Direct,steps={x:2}": ({"x": E.ULA(scale=0.01, initial_point=x3()), "d": E.Conjugate(),
+                                                                       "l": E.CWMH(scale=0.5, initial_point=one(1.0)), "z": E.Direct()}, {"x": 2}),
+            "HybridGibbs/dir:MALA+Conjugate+MH+Direct,steps={z:2}": ({"x": E.MALA(scale=0.05, initial_point=x3()), "d": E.Conjugate(),
+                                                                      "l": E.MH(scale=0.5, initial_point=one(1.0)), "z": E.Direct()}, {"z": 2}),
+            "HybridGibbs/dir:NUTS+Conjugate+MH+Direct": ({"x": E.NUTS(max_depth=3), "d": E.Conjugate(), "l": E.MH(scale=0.5, initial_point=one(1.0)),
+                                                          "z": E.Direct(initial_point=np.array([0.5, -0.5]))}, None),
+            "HybridGibbs/dir:LinearRTO+Conjugate+CWMH+Direct": ({"x": E.LinearRTO(maxit=20), "d": E.Conjugate(), "l": E.CWMH(scale=0.5, initial_point=one(1.0)),
+                                                                 "z": E.Direct()}, None),
+            "HybridGibbs/dir:MH+Conjugate+MH+Direct,steps={z:0}": ({"x": E.MH(scale=0.4, initial_point=x3()), "d": E.Conjugate(), "l": E.MH(scale=0.5, initial_point=one(1.0)),
+                                                                    "z": E.Direct()}, {"z": 0}),
+        } if "/dir:" in name else {})
         strat, steps = table[name]
         self.last_steps = dict(steps or {})          # what the harness configured (missing keys mean 1)
         return E.HybridGibbs(self.joint_of(name), strat, steps)
 
     def joint_of(self, name):
-        return self.joints["names" if "names:" in name else "lmrf" if "UGLA" in name else "reg" if "RegRTO" in name else "std"]
+        return self.joints["dir" if "/dir:" in name else "names" if "names:" in name else "lmrf" if "UGLA" in name else "reg" if "RegRTO" in name else "std"]
+
+    GIBBS = ["Gibbs", "Gibbs/MH+Conjugate", "Gibbs/CWMH+Conjugate", "Gibbs/pCN+Conjugate", "Gibbs/ULA+Conjugate", "Gibbs/MALA+Conjugate",
+             "Gibbs/NUTS+Conjugate", "Gibbs/LinearRTO+MH+Conjugate", "Gibbs/UGLA+ConjugateApprox+Conjugate", "Gibbs/RegularizedLinearRTO+Conjugate"]
 
     def make_gibbs(self, name):
+        """legacy Gibbs with every sampler class of the stateless interface as a block (classes that need arguments are
+        given as factories, which Gibbs calls exactly like a class)"""
         Lg = self.Lg
-        return Lg.Gibbs(self.joint, {"x": Lg.LinearRTO, ("d", "l"): Lg.Conjugate})
+        import functools
+        P = functools.partial
+        C2 = {("d", "l"): Lg.Conjugate}
+        table = {
+            "Gibbs": ("std", dict({"x": Lg.LinearRTO}, **C2)),
+            "Gibbs/MH+Conjugate": ("std", dict({"x": P(Lg.MH, scale=0.4)}, **C2)),
+            "Gibbs/CWMH+Conjugate": ("std", dict({"x": Lg.CWMH}, **C2)),
+            "Gibbs/pCN+Conjugate": ("std", dict({"x": P(Lg.pCN, scale=0.3)}, **C2)),
+            "Gibbs/ULA+Conjugate": ("std", dict({"x": P(Lg.ULA, scale=0.01)}, **C2)),
+            "Gibbs/MALA+Conjugate": ("std", dict({"x": P(Lg.MALA, scale=0.05)}, **C2)),
+            "Gibbs/NUTS+Conjugate": ("std", dict({"x": P(Lg.NUTS, adapt_step_size=0.3, max_depth=2)}, **C2)),
+            "Gibbs/LinearRTO+MH+Conjugate": ("std", {"x": Lg.LinearRTO, "d": P(Lg.MH, scale=0.5), "l": Lg.Conjugate}),
+            "Gibbs/UGLA+ConjugateApprox+Conjugate": ("lmrf", {"x": Lg.UGLA, "d": Lg.ConjugateApprox, "l": Lg.Conjugate}),
+            "Gibbs/RegularizedLinearRTO+Conjugate": ("reg", dict({"x": Lg.RegularizedLinearRTO}, **C2)),
+        }
+        jkey, strat = table[name]
+        return Lg.Gibbs(self.joints[jkey], strat)
 
 
 _WORLD = {}
@@ -582,6 +635,7 @@ def run_exp(W, name, x0, ops, seed, variant="mem", ledger=None):
     variant = variant.split("+")[0]
     stream = Stream(seed)
     cb, cbrefs, tunes, st = [], [], [], {"base": 0}
+    per, call_used = [], []          # variates consumed inside each transition (step + tune) / by each sample, warmup call
     led = ledger or Ledger()
     outs = []
     ckdir = None
@@ -598,8 +652,22 @@ def run_exp(W, name, x0, ops, seed, variant="mem", ledger=None):
 
         def tune(skip_len, update_count):
             tunes.append((len(s._samples) - st["base"], int(skip_len), int(update_count)))
-            return orig(skip_len, update_count)
+            p0 = stream.nvar
+            try:
+                return orig(skip_len, update_count)
+            finally:
+                if per:
+                    per[-1] += stream.nvar - p0          # tuning belongs to the transition it follows
         s.tune = tune
+        ostep = s.step
+
+        def step():
+            p0 = stream.nvar
+            try:
+                return ostep()
+            finally:
+                per.append(stream.nvar - p0)
+        s.step = step
         return s
 
     helpers = {}
@@ -630,11 +698,14 @@ def run_exp(W, name, x0, ops, seed, variant="mem", ledger=None):
     try:
         for op in ops:
             if op[0] == "S":
+                v0 = stream.nvar
                 with stream, quiet():
                     s.sample(op[1])
+                call_used.append(stream.nvar - v0)
                 pos += op[1]
             elif op[0] == "W":
                 st["base"] = len(s._samples) if s._is_initialized else 0
+                v0 = stream.nvar
                 with stream, quiet():
                     if (op[2], op[3]) == (1, 10):
                         s.warmup(op[1])                      # tune_freq left at its default (0.1)
@@ -642,6 +713,7 @@ def run_exp(W, name, x0, ops, seed, variant="mem", ledger=None):
                         s.warmup(Nb=op[1], tune_freq=op[2] / op[3])
                     else:
                         s.warmup(op[1], op[2] / op[3])
+                call_used.append(stream.nvar - v0)
                 pos += op[1]
             else:
                 fresh = attach(W.make_exp(name, x0))
@@ -692,7 +764,7 @@ def run_exp(W, name, x0, ops, seed, variant="mem", ledger=None):
     return {"smp": smp, "nacc": len(s._acc), "acc": [canon_val(a) for a in s._acc[1:]], "cb": list(cb), "cb_now": cb_now, "outs_now": outs_now, "tunes": list(tunes),
             "last_resume": last_resume, "handout": led.bad, "ledger": led,
             "state": {k: canon_val(v) for k, v in sorted(s.get_state()["state"].items())},
-            "draws": stream.draws(), "gs_ok": gs_ok, "init": init_b[0] if init_b[0] is not None else canon(s.initial_point),
+            "draws": stream.draws(), "per": list(per), "call_used": list(call_used), "nvar": stream.nvar, "gs_ok": gs_ok, "init": init_b[0] if init_b[0] is not None else canon(s.initial_point),
             "poisoned": poisoned, "sampler": s,
             "x0_given": (canon(np.asarray(build_x0(x0), dtype=float)) if x0 is not None else None),
             "acc_scalar": type(s).__name__ in ("MH", "PCN", "MALA") and not any(o[0] == "R" for o in ops),
@@ -712,6 +784,23 @@ def exp_expected(ref, ops):
                 k += 1
                 cb.append((chain[k - 1], k - 1 - base))
     return chain[base:k], cb
+
+
+def stream_check(ref_per, sizes, obs_per, obs_calls, labels):
+    """the position of the random stream: a call consumes what its transitions consume (measured inside the wrapped
+    step / tune / sweep of THIS run) and nothing else, and that is what the same transitions consumed in the one unsplit run"""
+    k = 0
+    for j, n in enumerate(sizes):
+        inside = sum(obs_per[k:k + n])
+        if j < len(obs_calls) and obs_calls[j] != inside:
+            return ("call %d, %s, consumed %d variates of the random stream, its %d transitions consumed %d: %d were drawn by work done once per "
+                    "call (validation, (re)initialisation, set-up), so the next transition does not see the variates it sees in one call" % (
+                        j, labels[j], obs_calls[j], n, inside, obs_calls[j] - inside))
+        want = sum(ref_per[k:k + n])
+        if j < len(obs_calls) and obs_calls[j] != want:
+            return "call %d, %s, consumed %d variates, the same transitions of the unsplit run consumed %d" % (j, labels[j], obs_calls[j], want)
+        k += n
+    return None
 
 
 def exp_check(ref, obs, ops):
@@ -750,6 +839,9 @@ def exp_check(ref, obs, ops):
         return ("resume" if has_r else "split", "state payload differs from the uninterrupted run in %s" % bad)
     if obs["draws"] != ref["draws"]:
         return ("resume" if has_r else "split", "the random stream is consumed differently (%d vs %d draws)" % (len(obs["draws"]), len(ref["draws"])))
+    bad_ = stream_check(ref["per"], [o[1] for o in ops if o[0] != "R"], obs["per"], obs["call_used"], ["%s" % (tuple(o),) for o in ops if o[0] != "R"])
+    if bad_:
+        return ("stream", bad_)
     if obs.get("handout"):
         return ("handout:" + obs["handout"][0], obs["handout"][1])
     if obs.get("x0_given") is not None and obs["init"] != obs["x0_given"]:
@@ -882,13 +974,15 @@ def joint_cols(D, names):
     return [b"".join(canon(a[..., k]) for a in arrs) for k in range(ns)]
 
 
-def run_gibbs(W, calls, nb, seed, scribble=False):
+def run_gibbs(W, calls, nb, seed, scribble=False, strategy="Gibbs"):
     """legacy Gibbs: sample(calls[0], nb); sample(calls[1]); ...  -> stored chain, warm-up chain, lengths returned.
     Every returned dict of Samples is kept and re-read after every later call (or, with scribble, overwritten by
     the user right after it was returned)."""
-    g = W.make_gibbs("Gibbs")
+    g = W.make_gibbs(strategy)
     led = Ledger()
     lens, outs = [], []
+    per, call_used = [], []
+    stream = Stream(seed)
     warm = None
     # reference that is not Gibbs' bookkeeping: what the block samplers' step methods returned in each sweep
     last, sweeps = {}, []
@@ -907,16 +1001,22 @@ def run_gibbs(W, calls, nb, seed, scribble=False):
     ostep = g.step
 
     def gstep(cs):
-        r = ostep(cs)
+        p0_ = stream.nvar
+        try:
+            r = ostep(cs)
+        finally:
+            per.append(stream.nvar - p0_)
         sweeps.append(b"".join(last[n_] for n_ in g.par_names))
         return r
     g.step = gstep
-    with Stream(seed), quiet():
+    with stream, quiet():
         for i, n in enumerate(calls):
+            v0_ = stream.nvar
             try:
                 R = g.sample(n, nb) if i == 0 else g.sample(n)
             except Exception as e:
                 return {"error": "call %d, sample(%d): %s: %s" % (i, n, type(e).__name__, e)}
+            call_used.append(stream.nvar - v0_)
             if not scribble:
                 led.recheck("sample call %d" % i)
                 led.give("returned-chain", R, rd_dict)
@@ -928,7 +1028,7 @@ def run_gibbs(W, calls, nb, seed, scribble=False):
                 scribble_samples(R)
     names = g.par_names
     return {"smp": joint_cols(outs[-1], names), "warm": warm, "lens": lens, "handout": led.bad,
-            "outs_now": [joint_cols(R, names) for R in outs], "sweeps": sweeps}
+            "outs_now": [joint_cols(R, names) for R in outs], "sweeps": sweeps, "per": list(per), "call_used": list(call_used), "nvar": stream.nvar}
 
 
 def run_hybrid(W, name, ops, seed, scribble=False):
@@ -943,8 +1043,10 @@ def run_hybrid(W, name, ops, seed, scribble=False):
     J_ = W.joint_of(name)
     joint_fp = deep_fp(J_)          # the user's joint distribution: HybridGibbs works on its own copy
     counts, pre_bad = {}, []
+    per, call_used = [], []
     with stream, quiet():
         h = W.make_hybrid(name)
+        built = stream.nvar                  # what construction (initialisation, validation of the targets) consumed
         expected_steps = dict(W.last_steps)
         names = h.par_names
         cur = {p: np.array(h.samplers[p].initial_point, dtype=float).reshape(-1).copy() for p in names}
@@ -1017,17 +1119,33 @@ def run_hybrid(W, name, ops, seed, scribble=False):
 
         def sweep():
             counts.clear()
-            osweep()
+            p0_ = stream.nvar
+            try:
+                osweep()
+            finally:
+                per.append(stream.nvar - p0_)
             want_ = {p: expected_steps.get(p, 1) for p in names}
             if dict((p, counts.get(p, 0)) for p in names) != want_ and not pre_bad:
                 pre_bad.append("sweep %d: inner transitions per block %s, configured %s" % (len(sweeps), dict((p, counts.get(p, 0)) for p in names), want_))
             sweeps.append(b"".join(canon(h.samplers[p].current_point) for p in names))
         h.step = sweep
+        otune = h.tune
+
+        def htune(*a_, **k_):
+            p0_ = stream.nvar
+            try:
+                return otune(*a_, **k_)
+            finally:
+                if per:
+                    per[-1] += stream.nvar - p0_
+        h.tune = htune
         for o in ops:
+            v0_ = stream.nvar
             if o[0] == "S":
                 h.sample(o[1])
             else:
                 h.warmup(o[1], o[2] / o[3])
+            call_used.append(stream.nvar - v0_)
             led.recheck("%s" % (tuple(o),))
             G = h.get_samples() if len(h.samples[names[0]]) else None
             outs.append(G)
@@ -1051,14 +1169,14 @@ def run_hybrid(W, name, ops, seed, scribble=False):
     return {"smp": smp, "gs_ok": gs_ok, "handout": led.bad, "outs_now": [joint_cols(R, names) for R in outs],
             "sweeps": sweeps, "mh_bad": (mh_bad[0] if mh_bad else None) or (pre_bad[0] if pre_bad else None) or
             ("the joint distribution handed to HybridGibbs was modified by the run (deep comparison)" if deep_fp(J_) != joint_fp else None),
-            "mh_checked": tuple(mh_checked),
+            "mh_checked": tuple(mh_checked), "per": list(per), "call_used": list(call_used), "built": built, "nvar": stream.nvar,
             "steps": dict(h.num_sampling_steps)}
 
 
 def attrs_snapshot(s):
     out = {}
     for k, v in vars(s).items():
-        if k in ("callback", "tune"):
+        if k in ("callback", "tune", "step"):
             continue
         out[k] = canon_val(v)
     return out
@@ -1137,6 +1255,7 @@ def exp_case(W, cache, name, x0, ops, seed, variant):
         coq_cb([(ids(b), i) for b, i in obs["cb_now"]]), coq_tunes(obs["tunes"]),
         czvec(ref["ref_ids"]), coq_ops(ops), coq_ll(obs["outs_now"], ids),
         cbool(obs["state"] == ref["state"] and obs["draws"] == ref["draws"] and obs["gs_ok"]))
+    expr += " && check_draws %s %s %s %s" % (cnl(ref["per"]), coq_ops(ops), cnl(obs["call_used"]), cnat(obs["nvar"]))
     sig = ""
     if bad:
         kind = bad[0]
@@ -1187,13 +1306,14 @@ def legacy_case(W, name, x0, N, Nb, seed, aliased):
                 kind="DECISION", impl_fail=("%s %s(N=%d, Nb=%d): %s" % (name, method, N, Nb, bad[1])) if bad else None, signature=sig)
 
 
-def gibbs_case(W, calls, nb, seed, scribble=False):
-    meta = {"kind": "gibbs", "calls": calls, "Nb": nb, "seed": seed, "scribble": scribble}
-    ref = run_gibbs(W, [sum(calls)], nb, seed)
+def gibbs_case(W, calls, nb, seed, scribble=False, strategy="Gibbs"):
+    meta = {"kind": "gibbs", "calls": calls, "Nb": nb, "seed": seed, "scribble": scribble, "strategy": strategy}
+    cellp = "gibbs/legacy" if strategy == "Gibbs" else "gibbs/legacy:" + strategy.split("/", 1)[1]
+    ref = run_gibbs(W, [sum(calls)], nb, seed, strategy=strategy)
     if "error" in ref:
         return Case(expr="false", meta=meta, cell="gibbs/legacy/error", trivial=False, kind="DECISION",
                     impl_fail="legacy Gibbs sample(%d, %d) raised: %s" % (sum(calls), nb, ref["error"]), signature="legacy.Gibbs.sample|raises")
-    obs = run_gibbs(W, calls, nb, seed, scribble=scribble)
+    obs = run_gibbs(W, calls, nb, seed, scribble=scribble, strategy=strategy)
     ids = Ids()
     ref_ids = [ids(b"init")] + [ids(b) for b in ref["warm"]] + [ids(b) for b in ref["smp"]]
     bad, sig = None, ""
@@ -1223,6 +1343,11 @@ def gibbs_case(W, calls, nb, seed, scribble=False):
     elif not scribble and any(o != ref["smp"][:c[0]] for o, c in zip(obs["outs_now"], cum)):
         bad, sig = "calls %s: a chain returned by an earlier call, re-read at the end, is not a prefix of the chain of one call" % (calls,), \
             "legacy.Gibbs.sample|handout:returned-chain"
+    else:
+        sizes_ = [nb + calls[0]] + list(calls[1:])
+        sb_ = stream_check(ref["per"], sizes_, obs["per"], obs["call_used"], ["sample(%d%s)" % (n_, ", %d" % nb if i_ == 0 else "") for i_, n_ in enumerate(calls)])
+        if sb_:
+            bad, sig = "legacy Gibbs (%s), calls %s, Nb=%d: %s" % (strategy, calls, nb, sb_), "legacy.Gibbs.sample|stream"
     if scribble:
         expr = "check_gibbs %s %s %s %s" % (czvec(ref_ids), cnat(nb), clist([cnat(c) for c in calls]), czvec([ids(b) for b in obs["smp"]]))
     else:
@@ -1231,13 +1356,21 @@ def gibbs_case(W, calls, nb, seed, scribble=False):
             czvec(ref_ids), cnat(nb), clist([cnat(c) for c in calls]), coq_ll(obs["outs_now"], ids),
             cbool(obs["lens"] == cum and obs["warm"] == ref["warm"])) + " && check_sweeps %s %s" % (
             czvec([ids(b) for b in obs["sweeps"]]), czvec([ids(b) for b in obs["warm"] + obs["smp"]]))
-    return Case(expr=expr, meta=meta, cell="gibbs/legacy/%s" % ("first-call-Ns=0" if calls[0] == 0 else "scribble" if scribble else "single" if len(calls) == 1 else "continued"),
+    expr += " && check_draws_sizes %s %s %s %s" % (cnl(ref["per"]), clist([cnat(nb + calls[0])] + [cnat(c) for c in calls[1:]]), cnl(obs["call_used"]), cnat(obs["nvar"]))
+    return Case(expr=expr, meta=meta, cell=cellp + "/%s" % ("first-call-Ns=0" if calls[0] == 0 else "scribble" if scribble else "single" if len(calls) == 1 else "continued"),
                 trivial=len(calls) == 1, kind="DECISION", impl_fail=bad, signature=sig)
 
 
-def hybrid_case(W, name, ops, seed, scribble=False):
+def hybrid_case(W, name, ops, seed, scribble=False, cache=None):
     meta = {"kind": "hybrid", "config": name, "ops": [list(o) for o in ops], "seed": seed, "scribble": scribble}
-    ref = run_hybrid(W, name, normalize(ops), seed)
+    key_ = (name, json.dumps(normalize(ops)), seed)
+    if cache is not None and key_ in cache:
+        ref = cache[key_]
+    else:
+        ref = run_hybrid(W, name, normalize(ops), seed)
+        if cache is not None:
+            cache.clear()                   # one reference at a time: the lattice of a configuration shares few unsplit runs
+            cache[key_] = ref
     obs = run_hybrid(W, name, ops, seed, scribble=scribble)
     ids = Ids()
     ref_ids = [ids(b"init")] + [ids(b) for b in ref["smp"]]
@@ -1258,6 +1391,11 @@ def hybrid_case(W, name, ops, seed, scribble=False):
         bad, kind = "%s %s: %s" % (name, ops, obs["mh_bad"]), "mh-block"
     elif obs["handout"]:
         bad, kind = "%s %s: %s" % (name, ops, obs["handout"][1]), "handout:" + obs["handout"][0]
+    elif obs["built"] != ref["built"] or stream_check(ref["per"], [o[1] for o in ops], obs["per"], obs["call_used"], ["%s" % (tuple(o),) for o in ops]):
+        bad = "%s %s: %s" % (name, ops, "construction consumed %d variates in one run and %d in the other" % (obs["built"], ref["built"])
+                             if obs["built"] != ref["built"] else
+                             stream_check(ref["per"], [o[1] for o in ops], obs["per"], obs["call_used"], ["%s" % (tuple(o),) for o in ops]))
+        kind = "stream"
     else:
         k = 0
         for j, o in enumerate(ops):
@@ -1271,9 +1409,14 @@ def hybrid_case(W, name, ops, seed, scribble=False):
         czvec(ref_ids), cnat(0), sizes, czvec([ids(b) for b in obs["smp"]]),
         czvec(ref_ids), cnat(0), sizes, coq_ll(obs["outs_now"], ids),
         czvec([ids(b) for b in obs["sweeps"]]), czvec([ids(b) for b in obs["smp"]]), cbool(obs["gs_ok"] and not obs["mh_bad"]))
+    expr += " && check_draws_sizes %s %s %s %s" % (cnl(ref["per"]), clist([cnat(o[1]) for o in ops]), cnl(obs["call_used"]),
+                                                  cnat(obs["nvar"] - obs["built"]))
     nS = sum(1 for o in ops if o[0] == "S")
-    return Case(expr=expr, meta=meta, cell="gibbs/%s/%s" % (name, "scribble" if scribble else "split" if nS > 1 else "single"),
-                trivial=nS <= 1 and not scribble, kind="DECISION",
+    nC = len(ops)
+    return Case(expr=expr, meta=meta, cell="gibbs/%s/%s%s%s" % (name, "scribble" if scribble else "split" if nC > 1 else "single",
+                                                                "+warmup" if any(o[0] == "W" for o in ops) else "",
+                                                                "+empty-call" if any(o[1] == 0 for o in ops) else ""),
+                trivial=nC <= 1 and not scribble, kind="DECISION",
                 impl_fail=bad, signature="HybridGibbs.%s|%s" % (kind, name.split("/", 1)[1]) if bad else "")
 
 
@@ -1868,6 +2011,17 @@ def exp_ops_lattice(ctx, rng, warm_capable=True, light=False):
     return out
 
 
+def hybrid_split_lattice(ctx, full=True):
+    """operation sequences of a Gibbs sampler, ordered so that sequences with the same unsplit run are adjacent"""
+    N = ctx.n(5, 12)
+    out = [[("S", k), ("S", N - k)] for k in (range(N + 1) if full or ctx.thorough else (0, 2, N))]
+    out += [[("S", 0), ("S", 0), ("S", N)], [("S", 2), ("S", 0), ("S", N - 2)], [("S", N)]]
+    for w in ([("W", 3, 1, 2)], [("W", 0, 1, 2)], [("W", 2, 1, 10), ("W", 2, 1, 1)]):
+        out += [w + [("S", N)], w + [("S", 0), ("S", N)], w + [("S", 2), ("S", N - 2)], w + [("S", N), ("S", 0)]]
+    out += [[("S", 2), ("W", 3, 1, 2), ("S", 2)], [("S", 2), ("W", 3, 1, 2), ("S", 0), ("S", 2)], [("S", 0), ("W", 3, 1, 2), ("S", 1), ("S", 1)]]
+    return out
+
+
 class _Guarded(list):
     """case list whose builders may not take the whole run down: a builder that crashes contributes a case the model cannot
     confirm (reported as a disagreement without failing input unless other cases show one)"""
@@ -1976,6 +2130,12 @@ def gen_cases(ctx, rng, thorough_sizes=None):
             cases.append(guard(gibbs_case, W, calls, nb, rng.randint(1, 10 ** 6)))
         for calls in ([2, 2], [1, 2, 1]):
             cases.append(guard(gibbs_case, W, calls, nb, rng.randint(1, 10 ** 6), scribble=True))
+    # every sampler class of the stateless interface as a block of legacy Gibbs: every split of the sampling phase incl. zero-length calls
+    for strategy in W.GIBBS[1:]:
+        for nb in (0, 2):
+            seed = rng.randint(1, 10 ** 6)
+            for calls in ([[4], [1, 3], [2, 2], [3, 1], [4, 0], [2, 0, 2], [1, 1, 2]] + ([[0, 4]] if nb else [])):
+                cases.append(guard(gibbs_case, W, calls, nb, seed, strategy=strategy))
     for name in W.HYBRID[2:]:
         # several inner steps per sweep, rejecting and exact block samplers: long enough to meet sweeps in which an early
         # inner step is accepted and the last one rejected
@@ -1984,8 +2144,16 @@ def gen_cases(ctx, rng, thorough_sizes=None):
             n = ctx.n(16, 60)
             for ops in ([("S", n)], [("S", 3), ("S", n - 3)], [("S", 0), ("S", n)]):
                 cases.append(guard(hybrid_case, W, name, w + ops, seed))
+    # every block-sampler class x every split pattern (zero-length calls, warm-up / sample sequences): one unsplit run per
+    # (configuration, warm-up prefix), the block samplers' own points and the Metropolis recursion as independent references,
+    # and the number of variates each call takes from the stream
+    for name in W.HYBRID_DIR + W.HYBRID:
+        seed = rng.randint(1, 10 ** 6)
+        hc = {}
+        for ops in hybrid_split_lattice(ctx, full=name in W.HYBRID_DIR):
+            cases.append(guard(hybrid_case, W, name, ops, seed, cache=hc))
     cases.append(guard(stepsdict_case, W, rng.randint(1, 10 ** 6)))
-    for name in W.HYBRID:
+    for name in W.HYBRID + W.HYBRID_DIR:
         for warm in (0, 4):
             for k in ((0, 3) if not ctx.thorough else (0, 1, 3, 7)):
                 cases.append(guard(hybrid_resume_case, W, name, warm, k, ctx.n(8, 16), rng.randint(1, 10 ** 6)))
@@ -2034,7 +2202,7 @@ def _rerun(ctx, m):
         aliased = bool(lf.get(cls.__name__, {}).get("_" + method, {}).get("argmut"))
         return legacy_case(W, m["config"], m["x0"], m["N"], m["Nb"], m["seed"], aliased)
     if k == "gibbs":
-        return gibbs_case(W, m["calls"], m["Nb"], m["seed"], scribble=m.get("scribble", False))
+        return gibbs_case(W, m["calls"], m["Nb"], m["seed"], scribble=m.get("scribble", False), strategy=m.get("strategy", "Gibbs"))
     if k == "hybrid":
         return hybrid_case(W, m["config"], [tuple(o) for o in m["ops"]], m["seed"], scribble=m.get("scribble", False))
     if k == "twins":
